@@ -608,6 +608,12 @@ def main():
         names = [f"{fam.name}_V{k}" for k in range(len(fam.versions))]
         for n in names:
             out.append(f'    entries.push(entry::<{n}>("{n}", reg));')
+        if fam.kind == "enum":
+            # sequences of the enum, written in the known-length form (Vec) and in the unknown-length
+            # form (Streamed): constructor indices met inside a sequence (C13)
+            for n in names:
+                out.append(f'    entries.push(entry::<Vec<{n}>>("Vec<{n}>", reg));')
+                out.append(f'    entries.push(entry::<crate::bridge::Streamed<{n}>>("Streamed<{n}>", reg));')
         out.append('    fams.add("%s", &[%s]);' % (fam.name, ", ".join(f'"{n}".to_string()' for n in names)))
         tags = ", ".join(f'"{t}"' for t in sorted(fam.tags))
         nested = "true" if fam.name in ctx["nested_used"] else "false"
